@@ -380,6 +380,10 @@ func c06RunC(r *tr.Run, rc *tr.Run, cs c06Case) (gateReached bool) {
 			return
 		}
 	}
+	if cs.FailSecond && !WaitOrHang(runDone) { // Close comes after Run has given up
+		r.Emit("hung", "what", "Run with a failing Subscribe did not return")
+		return
+	}
 	// Close arrives
 	var cw sync.WaitGroup
 	anyRet := make(chan struct{})
